@@ -425,12 +425,20 @@ class Buildable(Generic[T], metaclass=abc.ABCMeta):
         include_no_value=True,
     )
     var_positional_start = self.__signature_info__.var_positional_start
+    if var_positional_start is None:
+      # *args does not exist: every positional argument is non-variadic.
+      var_positional_start = len(all_positional_args)
     if isinstance(key, slice):
       key = key.indices(len(all_positional_args))
       indices = list(range(*key))
     else:
       if key < 0:
         key += len(all_positional_args)
+      if not 0 <= key < len(all_positional_args):
+        raise IndexError(
+            f'Cannot delete positional argument with index {key}'
+            ' (index out of range).'
+        )
       indices = [key]
 
     old_placeholders = [
